@@ -3,7 +3,7 @@ import sockcheck
 
 LEAN_MODULES = ["PyAirtouch.Props.C15"]
 LEVEL = "proof"
-MONITORS = ["c15", "c07a", "c07b"]
+MONITORS = ["c15", "c07a", "c07b", "c07c"]
 
 
 def _nontrivial(script, r):
@@ -17,7 +17,7 @@ def run(ctx, deep=False):
         "scripts of the outage / steady / fault families cut at a random point by close(), optionally followed by a send, then "
         "1000 s of virtual idle time with the network accepting; at the end the loop's pending timers, unfinished tasks and the "
         "fake network's open transports are counted. Monitor: after close() has returned no connection attempt, no transport "
-        "opened, no frame written, no connected notification, sends rejected with not-open; census all zero. Every run replayed "
+        "opened, no frame written, no connected notification, sends rejected with not-open; census all zero; in 40% of the scripts the socket is opened again afterwards and must reconnect, deliver a probe frame and transmit a probe command. Every run replayed "
         "against the Lean model.")
     for gen in (4, 5):
         items = sockcheck.gen_scripts(ctx.seed * 23 + gen, [("close", n)])
